@@ -11,7 +11,7 @@ RULE = ('literals at day/hour/minute/second precision x separators - and : x quo
         'ordinary days, month ends, year end, 29 Feb and the two DST-change days; for each literal the mtime grid '
         '{a-1,a,a+1,mid,b-1,b,b+1} (+- one day) x operators = != < > <= >= (all spellings) and ===/!== at full precision x '
         'TZ in {UTC, Europe/Berlin, Asia/Kolkata} (thorough: + New_York, Lord_Howe (30-minute DST), Chatham (+12:45), Kathmandu (+5:45), St_Johns (-3:30) and every month end / month start of 2020 and 2021); relative literals today, yesterday, -7..+1 under a controlled clock at '
-        'midnight, noon, 23:59:59, month end, year end and DST days; the modified column text; non-trivial = the condition '
+        'midnight, noon, 23:59:59, month end, year end and DST days; the modified column text, incl. times before 1970 with a fractional part (the second they fall in is the floor); non-trivial = the condition '
         'accepts some but not all grid points')
 ASSUMPTIONS = ['comparisons are between local wall-clock seconds (the statement\'s "local-time seconds")',
                'a positive day offset is written quoted (\'+1\'): an unquoted + is an arithmetic sign', 'clock owned through the LD_PRELOAD shim (FSX_NOW); zone through TZ; literals inside a DST gap are not generated']
@@ -89,11 +89,14 @@ def groups(tier, seed):
         for now in nows:
             yield {'kind': 'rel', 'zone': zone, 'now': list(now), 'only': None}
     yield {'kind': 'fmt'}
+    yield {'kind': 'epoch'}
 
 
 def single(case):
     if case['kind'] == 'abs':
         return {'kind': 'abs', 'zone': case['zone'], 'base': case['base'], 'only': case['cond']}
+    if case['kind'] == 'epoch':
+        return {'kind': 'epoch', 'only': case['cond']}
     if case['kind'] == 'rel':
         return {'kind': 'rel', 'zone': case['zone'], 'now': case['now'], 'only': case['cond']}
     return {'kind': 'fmt'}
@@ -197,16 +200,32 @@ def eval_group(env, group, tier):
             run_conds(env, root, zone, times, conds, group, outs, extra_env={'FSX_NOW': str(enow)}, kind='rel')
         finally:
             env.rmtree(root)
+    elif kind == 'epoch':
+        import math
+        times = {'n%02d' % i: p for i, p in enumerate([-86400.5, -2.5, -1.75, -1.0, -0.5, -0.25, 0.0, 0.25, 0.75, 1.0, 1.5, 86399.75])}
+        root = env.newdir('c13e')
+        core.materialise(root, {n: F(1, mtime=p) for n, p in times.items()})
+        try:
+            floor_times = {n: math.floor(p) for n, p in times.items()}
+            conds = []
+            for lit, a, b in (('1969-12-31 23:59:59', -1, -1), ('1970-01-01 00:00:00', 0, 0), ('1969-12-31', -86400, -1), ('1970-01-01', 0, 86399),
+                              ('1969-12-31 23:59:58', -2, -2), ('1969-12-31 23:59', -60, -1), ('1970-01-01 00:00:01', 1, 1)):
+                for op in OPS:
+                    conds.append(("%s '%s'" % (op, lit), op, dt.datetime(1970, 1, 1) + dt.timedelta(seconds=a), dt.datetime(1970, 1, 1) + dt.timedelta(seconds=b), 'epoch'))
+            run_conds(env, root, 'UTC', floor_times, conds, group, outs, kind='epoch')
+        finally:
+            env.rmtree(root)
     else:
         # the modified column prints local time
-        pts = [0, 1, 951782400, 1583020799, 1614834367, 1616893200, 1616893199, 1635641999, 1635645600, 1609459199, 1609459200, 2000000000]
+        pts = [-0.25, -0.75, -1.5, -86399.5, -86400.25, -1, -2, 0.5, 0, 1, 951782400, 1583020799, 1614834367, 1616893200, 1616893199, 1635641999, 1635645600, 1609459199, 1609459200, 2000000000]
         root = env.newdir('c13f')
         core.materialise(root, {'t%02d' % i: F(1, mtime=p) for i, p in enumerate(pts)})
         try:
             for zone in ZONES:
                 o = env.run(['name, modified from . into list'], cwd=root, env={'TZ': zone})
                 rows = o.rows(2) or []
-                exp = sorted(('t%02d' % i, local_naive(p, zone).strftime('%Y-%m-%d %H:%M:%S')) for i, p in enumerate(pts))
+                import math
+                exp = sorted(('t%02d' % i, local_naive(math.floor(p), zone).strftime('%Y-%m-%d %H:%M:%S')) for i, p in enumerate(pts))
                 r = {'case': {'kind': 'fmt', 'zone': zone}, 'nt': True, 'layer': 'format', 'trans': len(pts)}
                 if o.rc != 0 or sorted(rows) != exp:
                     bad = [(g, e) for g, e in zip(sorted(rows), exp) if g != e][:4]
